@@ -12,7 +12,7 @@ mkdir -p $MS
 rsync -a --delete --exclude target /verif/sim/ $MS/sim/
 grep -rl '/repo/' $MS/sim/Cargo.toml $MS/sim/src | xargs sed -i "s#\"/repo/#\"$MR/#g"
 ( cd $MS/sim && CARGO_TARGET_DIR=$MS/target cargo build --release --offline 2>&1 | grep -E "^error" -A8 | head -30 )
-mkdir -p $MS/out
+mkdir -p $MS/out; rm -rf $MS/out/replays $MS/out/corpus; [ -d /verif/corpus ] && [ -z "${NO_CORPUS:-}" ] && cp -r /verif/corpus $MS/out/corpus
 cp /verif/known_findings.json $MS/out/
 VERIF_ROOT=$MS/out $MS/target/release/simctl check "$PROP" "$TIER" 2>&1 | grep -a -v "^  note" | cut -c1-400
 echo "exit=$?"
